@@ -262,6 +262,9 @@ func runC15(c *Ctx) error {
 			c.R.Count(fmt.Sprintf("scenario:%s shared=%v", sc.name, shared), explored)
 		}
 	}
+	if err := c15WirePeers(c); err != nil {
+		return err
+	}
 	if err := c15FreeRun(c); err != nil {
 		return err
 	}
